@@ -1,27 +1,23 @@
 #!/usr/bin/env python3
-"""seedtest.py <patch.diff> <prop> [<prop>...]   apply a seeded change to /repo, run the quick checks, revert.
-Prints one line per property: rc and VIOLATION/UNDECIDED lines. Never leaves /repo modified."""
-import subprocess, sys, os
-patch = os.path.abspath(sys.argv[1])
-props = sys.argv[2:]
-tier = os.environ.get("TIER", "quick")
+"""seedtest.py <patch.diff> <prop> [<prop>...]   apply a change in a PRIVATE scratch worktree of /repo (never in /repo),
+run the checks against it (VERIF_REPO), remove the worktree.  Evidence/replay go to a temp dir.  env TIER=quick|thorough"""
+import subprocess, sys, os, shutil
+patch = os.path.abspath(sys.argv[1]); props = sys.argv[2:]; tier = os.environ.get("TIER", "quick")
+WT = "/tmp/wt-seedtest-%d" % os.getpid(); TMP = "/tmp/seedtest-out-%d" % os.getpid()
 def sh(cmd, **kw):
     return subprocess.run(cmd, shell=True, stdout=subprocess.PIPE, stderr=subprocess.STDOUT, text=True, **kw)
-st = sh("git -C /repo status --porcelain --untracked-files=no").stdout.strip()
-if st:
-    print("refusing: /repo is dirty:\n" + st); sys.exit(3)
-r = sh("git -C /repo apply %s" % patch)
-if r.returncode != 0:
-    print("patch does not apply:", r.stdout); sys.exit(3)
+r = sh("git -C /repo worktree add --detach %s HEAD" % WT); assert r.returncode == 0, r.stdout
 try:
+    r = sh("git apply %s" % patch, cwd=WT)
+    if r.returncode != 0:
+        print("patch does not apply:", r.stdout); sys.exit(3)
+    os.makedirs(TMP, exist_ok=True)
+    env = dict(os.environ, VERIF_REPO=WT, VERIF_EVIDENCE_DIR=TMP, VERIF_REPLAY_DIR=TMP)
     for p in props:
-        r = sh("cd /verif && ./check %s --tier %s" % (p, tier))
-        lines = [l for l in r.stdout.split("\n") if l.startswith(("VIOLATION", "UNDECIDED", "KNOWN-FINDING", "property="))]
+        r = sh("cd /verif && ./check %s --tier %s" % (p, tier), env=env)
         print("%s rc=%d" % (p, r.returncode))
-        for l in lines:
-            print("   " + l[:300])
+        for l in r.stdout.split("\n"):
+            if l.startswith(("VIOLATION", "UNDECIDED", "KNOWN-FINDING", "property=")):
+                print("   " + l[:300])
 finally:
-    sh("git -C /repo checkout -- . && git -C /repo clean -fdq -e target")
-    st = sh("git -C /repo status --porcelain").stdout.strip()
-    if st:
-        print("WARNING: /repo not clean after revert:\n" + st)
+    sh("git -C /repo worktree remove --force %s" % WT); sh("git -C /repo worktree prune"); shutil.rmtree(TMP, ignore_errors=True)
